@@ -23,7 +23,7 @@ KERNELS = ("rl_slice_bounds",)
 RULE = ("cases = encoded array (exhaustive over 3 letters up to length 4 quick / 6 thorough + random long-run arrays) x index "
         "(every int in [-(n+2), n+1]; int lists with repeats / out of range; dense bool masks; run-length bool masks, canonical and as produced by a comparison (`x[x > 0]`: equal neighbouring runs); every slice with "
         "bounds in {None} U [-(n+3), n+3] and steps None,+-1,+-2,+-3,+-(n+1); start/stop window vectors) x dtype; "
-        "distinct = distinct (classes, index); non-trivial = not a refusal and array length >= 2")
+        "long arrays (around 2**8 and 2**16 cells) with lists, slices, windows and masks that keep hundreds / tens of thousands of cells of one run; distinct = distinct (classes, index); non-trivial = not a refusal and array length >= 2")
 EXHAUSTIVE = {"quick": False, "thorough": False}
 CORRESPONDENCE_ONLY = ["dtype tags"]
 ASSUMPTIONS = []
